@@ -138,7 +138,7 @@ def join(rng, items):
 
 
 def experiment(rng, base_dir, n_inst=None, n_beads=None, n_samples=None, units_pool=UNITS, float_frac=0.3,
-               npop=4, fractions=(0.3, 0.5, 0.85, 1.0, 0.0, 1), nfl=None, force_float_first=False, zero_fraction_first=False, permute_columns=0.3):
+               npop=4, fractions=(0.3, 0.5, 0.85, 1.0, 0.0, 1), nfl=None, force_float_first=False, zero_fraction_first=False, permute_columns=0.3, big_first=False):
     """Writes FCS files under base_dir and returns (instruments_df, beads_df, samples_df, info)."""
     os.makedirs(base_dir, exist_ok=True)
     n_inst = n_inst or int(rng.integers(1, 4))
@@ -178,6 +178,7 @@ def experiment(rng, base_dir, n_inst=None, n_beads=None, n_samples=None, units_p
         if k == 0 and zero_fraction_first:
             ti, wt = 'full', True           # a row that keeps no events, on a file with a time channel and a time step
         info['sample_specs']['S%d' % k] = sample_file(rng, it, os.path.join(base_dir, fn), with_time=wt, time_info=ti,
+                                                      n=70001 if (big_first and k == 0) else None,
                                                       floatdata=('D' if (rng.random() < 0.4 or (force_float_first == 'D' and k == 0))
                                                                  else True) if isf else False,
                                                       col_perm=(lambda D_: rng.permutation(D_)) if rng.random() < permute_columns else None)
